@@ -11,6 +11,9 @@ _canon_cache = {}
 BURST_ORDER = ("open", "set_code", "allocate", "input", "send", "proc", "turn", "rx", "choose_nameplate", "choose_words", "stopped")
 
 
+LAZY_ORDER = ("open", "set_code", "allocate", "input", "send", "rx", "turn", "choose_nameplate", "choose_words", "proc", "stopped")
+
+
 def sim_args(cfg):
     return {k: v for k, v in cfg.items() if k != "canon"}
 
@@ -24,6 +27,9 @@ def canonical(cfgname, configs, close=True):
             if cfg.get("canon") == "burst":
                 # application calls first (all send_message calls are issued before anything is delivered)
                 tr = sim.canonical(honest_policy(close=close, order=BURST_ORDER))
+            elif cfg.get("canon") == "lazy":
+                # the server processes commands as late as possible (unprocessed commands pile up and can be lost together)
+                tr = sim.canonical(honest_policy(close=close, order=LAZY_ORDER))
             else:
                 tr = sim.canonical(honest_policy(close=close))
         finally:
